@@ -39,7 +39,7 @@ NoDup(c) == Cardinality(ToSet(c.nondust)) = Len(c.nondust) /\ Cardinality(ToSet(
 TraceInit ==
   /\ l = 1 /\ nodeOf = <<>> /\ saved = <<>> /\ everRAA = <<>> /\ projB = <<>>
   /\ fw = [adds |-> {}, downFul |-> {}, upClaimed |-> {}, settledNow |-> {}, base0 |-> <<>>, pol |-> <<>>,
-           shut |-> {}, closeFee |-> <<>>, newInfl |-> {}, crashed |-> {}, liveAtCrash |-> {}, snapKnows |-> <<>>, needSent |-> {}, owed |-> {}, settled |-> FALSE, pays |-> {}, claimedEv |-> {}, sentEv |-> {}, failEv |-> {}, lastMgr |-> <<>>, cuid |-> <<>>]
+           shut |-> {}, closeFee |-> <<>>, newInfl |-> {}, crashed |-> {}, liveAtCrash |-> {}, snapKnows |-> <<>>, needSent |-> {}, owed |-> {}, settled |-> FALSE, pays |-> {}, claimedEv |-> {}, sentEv |-> {}, failEv |-> {}, lastMgr |-> <<>>, cuid |-> <<>>, failedNow |-> {}, ruid |-> <<>>]
   /\ par = <<>> /\ cnt = <<>> /\ hs = <<>> /\ fees = <<>> /\ feeBase = <<>> /\ base = <<>>
   /\ link = <<>> /\ redo = <<>> /\ lastCS = <<>> /\ order = <<>> /\ pts = <<>> /\ mon = <<>>
   /\ ownExp = <<>>
@@ -72,7 +72,7 @@ TOpen ==
         /\ saved' = <<>> /\ projB' = <<>>
         /\ fw' = [adds |-> {}, downFul |-> {}, upClaimed |-> {}, settledNow |-> {},
                    base0 |-> [e \in E |-> IF e[2] = 1 THEN cs[ch(e[1])].bal_a_msat ELSE cs[ch(e[1])].bal_b_msat],
-                   pol |-> R.policy, shut |-> {}, closeFee |-> [c \in C |-> 0], newInfl |-> {}, crashed |-> {}, liveAtCrash |-> {}, snapKnows |-> <<>>, needSent |-> {}, owed |-> {}, settled |-> FALSE, pays |-> {}, claimedEv |-> {}, sentEv |-> {}, failEv |-> {}, lastMgr |-> <<>>, cuid |-> <<>>]
+                   pol |-> R.policy, shut |-> {}, closeFee |-> [c \in C |-> 0], newInfl |-> {}, crashed |-> {}, liveAtCrash |-> {}, snapKnows |-> <<>>, needSent |-> {}, owed |-> {}, settled |-> FALSE, pays |-> {}, claimedEv |-> {}, sentEv |-> {}, failEv |-> {}, lastMgr |-> <<>>, cuid |-> <<>>, failedNow |-> {}, ruid |-> <<>>]
 
 \* not part of the commitment protocol; `warning` / `disconnect_peer` ask the transport to drop the
 \* peer (the harness then disconnects, as PeerManager would) -- an `error` is never acceptable
@@ -120,7 +120,15 @@ TMsg ==
            LET ue == EP(u.chan, R.from) IN
            Closed(ue) \/ G9(<<ue, R.hash>> \in DOMAIN fw.cuid /\ Durable(ue, fw.cuid[<<ue, R.hash>>]))
   /\ (R.chan # 0 /\ R.kind \in {"update_fail_htlc", "update_fail_malformed_htlc"} /\ ~Closed(EP(R.chan, R.from)))
-        => G2(MayFailUp(R.from, EP(R.chan, R.from), R.id))
+        => /\ G2(MayFailUp(R.from, EP(R.chan, R.from), R.id))
+           \* C09: the failure of a forwarded HTLC is passed upstream only after the update of the downstream
+           \* revocation that made its removal irrevocable is durable
+           /\ Has(EP(R.chan, R.from), "in", R.id) /\ Get(EP(R.chan, R.from), "in", R.id).rem = -1 =>
+                LET h == Get(EP(R.chan, R.from), "in", R.id).hash IN
+                \A a \in {b \in fw.adds : b.node = R.from /\ b.dir = "out" /\ b.hash = h} :
+                   LET de == EP(a.chan, R.from) IN
+                   Closed(de) \/ R.from \in fw.crashed
+                   \/ G9(<<de, h>> \in DOMAIN fw.ruid /\ Durable(de, fw.ruid[<<de, h>>]))
   /\ LET k == R.kind  e == EP(R.chan, R.from) IN
      IF R.chan = 0 THEN UNCHANGED cvars ELSE
      IF Closed(e) THEN G10(k \in Harmless) /\ UNCHANGED cvars ELSE    \* a closed channel is never resumed
@@ -152,7 +160,9 @@ TDeliver ==
             ELSE IF R.kind = "revoke_and_ack" /\ ~Closed(EP(R.chan, R.to))
                  THEN \* fulfilled outbound HTLCs whose removal this revocation makes irrevocable
                       \* (accumulated: the monitor update of this revocation may be held back and reach Persist later)
-                      [fw EXCEPT !.settledNow = @ \cup {<<EP(R.chan, R.to), x.hash>> : x \in {y \in hs[EP(R.chan, R.to)] : y.dir = "out" /\ y.rem = 3 /\ y.res = "fulfill"}}]
+                      [fw EXCEPT !.settledNow = @ \cup {<<EP(R.chan, R.to), x.hash>> : x \in {y \in hs[EP(R.chan, R.to)] : y.dir = "out" /\ y.rem = 3 /\ y.res = "fulfill"}},
+                                 \* ... and failed ones: their failure may be passed upstream once this revocation's update is durable
+                                 !.failedNow = @ \cup {<<EP(R.chan, R.to), x.hash>> : x \in {y \in hs[EP(R.chan, R.to)] : y.dir = "out" /\ y.rem = 3 /\ y.res = "fail"}}]
             ELSE fw
   /\ LET k == R.kind  e == EP(R.chan, R.to) IN
      IF R.chan = 0 \/ Closed(e) THEN UNCHANGED cvars ELSE
@@ -184,7 +194,9 @@ TPersist ==
   /\ fw' = IF R.has_update /\ ~Closed(EP(R.chan, R.node)) /\ R.kind # "load" /\ StepsOf("commitment_secret") # {}
             THEN LET e == EP(R.chan, R.node)
                      new == {<<e, x.hash>> : x \in NewlyCommitted(e)}
-                 IN [fw EXCEPT !.cuid = [k \in DOMAIN @ \cup new |-> IF k \in new THEN R.uid ELSE @[k]]]
+                     gone == {p \in fw.failedNow : p[1] = e /\ p \notin DOMAIN fw.ruid}
+                 IN [fw EXCEPT !.cuid = [k \in DOMAIN @ \cup new |-> IF k \in new THEN R.uid ELSE @[k]],
+                               !.ruid = [k \in DOMAIN @ \cup gone |-> IF k \in gone THEN R.uid ELSE @[k]]]
             ELSE fw
   /\ G12(RtOK)
   \* a closed channel accepts no further revocation secret (in particular not a forged one)
@@ -254,6 +266,7 @@ TCrash ==
                        \* (a terminal event the user handled before the restart stays handled, whatever manager is
                        \* restored: the library then no longer owes it -- its completion action told the monitor)
                        !.settledNow = {p \in @ : p[1] \notin EPsOf(R.node)},
+                       !.failedNow = {p \in @ : p[1] \notin EPsOf(R.node)},
                        \* an event the user refused stays owed if the manager restarted from was written after
                        \* the refusal (pending events are part of it)
                        !.owed = {o \in @ : o[1] # R.node \/ o[4] <= R.mgr},
